@@ -623,12 +623,15 @@ def sec_dmtx(ck, hm, dm, ep):
             names[0] = "cond a"        # a space inside a name
         if i == 0:                     # smallest replay of the single-column finding first
             X, names, n, p = np.ones((26, 1)), ["n0_"], 26, 1
+        elif i == 1:                   # any one-column file (no delimiter at all in it)
+            X, names, n, p = rng.standard_normal((6, 1)), ["a"], 6, 1
         path = os.path.join(tmp, "d%d.csv" % i)
         d = dm.DesignMatrix(X, names, None)
         d.write_csv(path)
         ncsv += 1
         ck.count(("csv", i, n, p), bucket="csv")
-        rep = {"shape": [n, p], "names": names, "first_row": X[0].tolist()}
+        rep = {"shape": [n, p], "names": names, "first_row": X[0].tolist(),
+               "matrix": X.tolist() if X.size <= 60 else ("np.ones((%d, %d))" % (n, p) if np.all(X == 1.0) else "random")}
         try:
             d2 = dm.dmtx_from_csv(path)
         except Exception as e:  # noqa
